@@ -28,7 +28,10 @@ CHECKS['C19'] = {
             'answers 200 / 401 / 403 (valid, scope-restricted) / 404 / 422 / 429 / 500 / 502 / 503 / connection error (stub backend, Rails '
             'stub dropping the connection, and ten behaviours of the in-memory database incl. restricted scopes, unparsable or NULL scopes, '
             'failing iteration, bad connection, no connection); only 401 may lead to pass-through. Legacy-handler requests arrive with '
-            'Content-Length, chunked (generated chunk sizes, ContentLength -1), Content-Length 0, or as HTTP/1.0.',
+            'Content-Length, chunked (generated chunk sizes, ContentLength -1), Content-Length 0, or as HTTP/1.0. '
+            'Round 3: in 3 of 8 query/form placements of the legacy handler the parameter name is partly percent-encoded (api%5Ftoken, '
+            'api_toke%6E, %61pi_token, ...), before or after the other parameters; one request in 4 also carries a reader_tokens parameter '
+            '(labels param-name-percent-encoded/*).',
     'assumptions': [
         'reference salt = hex HMAC-SHA1(key=secret, msg=remote id); token grammar (v2/<uuid>/<secret>[/...], legacy [0-9a-z]{41,}) restated in vcommon/c19',
         'RailsAPI, PostgreSQL (one SELECT of validateAPItoken), the remote API server and the remote Keep service are loopback stubs; '
